@@ -60,6 +60,27 @@ fn chk(c: &mut Ctx, orig: &[String], new: &[String], lookup: &[String], noted: &
         }
     }
 }
+/// the cherry-pick twin: explicit (source, new) pairs
+fn chk_cp(c: &mut Ctx, pairs: &[(String, String)], noted: &[String], equal: bool, paths: bool) {
+    c.evaluated += 1;
+    let input = format!("CP|{}|{}|{}|{}", pairs.iter().map(|(a, b)| format!("{}>{}", a, b)).collect::<Vec<_>>().join(","), noted.join(","), equal as u8, paths as u8);
+    let repo = Repository { notes: noted.iter().map(|c| (c.clone(), format!("note({})", c))).collect(), tracked_equal: equal };
+    WRITTEN.with(|w| w.borrow_mut().clear());
+    let tracked: Vec<String> = if paths { vec!["src/a.rs".to_string()] } else { vec![] };
+    let p2 = pairs.to_vec();
+    let r = guarded(move || try_fast_path_cherry_pick_note_remap(&repo, &p2, &tracked));
+    let written: Vec<(String, String)> = WRITTEN.with(|w| w.borrow().clone()).into_iter().flatten().collect();
+    match r {
+        Err(p) => c.fail("try_fast_path_cherry_pick_note_remap", "safety", input, p, "no panic".into()),
+        Ok(Err(e)) => c.fail("try_fast_path_cherry_pick_note_remap", "ensures#0", input, format!("Err({:?})", e), "Ok".into()),
+        Ok(Ok(fired)) => {
+            let may_fire = !pairs.is_empty() && paths && equal && pairs.iter().all(|(s, _)| noted.contains(s));
+            if fired && !may_fire { c.fail("try_fast_path_cherry_pick_note_remap", "ensures#0", input, "Ok(true)".into(), "Ok(false)".into()); return; }
+            let exp: Vec<(String, String)> = if fired { pairs.iter().map(|(s, n)| (n.clone(), format!("note({})=>{}", s, n))).collect() } else { vec![] };
+            if written != exp { c.fail("try_fast_path_cherry_pick_note_remap", "pre@opq_notes_add_batch#0", input, format!("{:?}", written), format!("{:?}: every new commit gets the note of ITS source", exp)); }
+        }
+    }
+}
 fn names(p: &str, n: usize) -> Vec<String> { (0..n).map(|i| format!("{}{}", p, i)).collect() }
 fn main() {
     std::panic::set_hook(Box::new(|_| {}));
@@ -72,9 +93,17 @@ fn main() {
             let nd: Vec<String> = (0..no).filter(|i| nmask >> i & 1 == 1).map(|i| o[i].clone()).collect();
             chk(&mut c, &o, &n, &l, &nd, eq, pa);
         } } } } } }
+        for n in 0..4usize { for nmask in 0u32..(1 << n) { for eq in [true, false] { for pa in [true, false] {
+            let pairs: Vec<(String, String)> = (0..n).map(|i| (format!("s{}", i), format!("n{}", i))).collect();
+            let nd: Vec<String> = (0..n).filter(|i| nmask >> i & 1 == 1).map(|i| format!("s{}", i)).collect();
+            chk_cp(&mut c, &pairs, &nd, eq, pa);
+        } } } }
         // the same original twice, the same note for two commits
         chk(&mut c, &["o0".into(), "o0".into()], &["n0".into(), "n1".into()], &["n0".into(), "n1".into()], &["o0".into()], true, true);
     } else {
+        if let Some(t) = a[3].strip_prefix("CP|") { let q: Vec<&str> = t.split('|').collect(); let l = |s: &str| -> Vec<String> { s.split(',').filter(|x| !x.is_empty()).map(|x| x.to_string()).collect() };
+            let pairs: Vec<(String, String)> = l(q[0]).iter().map(|x| { let (a, b) = x.split_once('>').unwrap(); (a.to_string(), b.to_string()) }).collect();
+            chk_cp(&mut c, &pairs, &l(q[1]), q[2] == "1", q[3] == "1"); println!("DONE evaluated={}", c.evaluated); return; }
         let q: Vec<&str> = a[3].split('|').collect();
         let l = |s: &str| -> Vec<String> { s.split(',').filter(|x| !x.is_empty()).map(|x| x.to_string()).collect() };
         chk(&mut c, &l(q[0]), &l(q[1]), &l(q[2]), &l(q[3]), q[4] == "1", q[5] == "1");
